@@ -127,6 +127,18 @@ where
                 let dbg = format!("{:?}", v);
                 extra.insert("debug_head".into(), j!(dbg.chars().take(24).collect::<String>()));
             }
+            // the same document viewed through the dynamic `any` value (the route the payload of an `any` field takes)
+            let via_any: Result<T, String> = json::client_from_str::<conjure_object::Any>(&c.doc)
+                .map_err(|e| format!("any: {}", e))
+                .and_then(|a| a.deserialize_into::<T>().map_err(|e| e.to_string()));
+            let via_any_equal = match (&via_any, &client) {
+                (Ok(a), Ok(b)) => Some(a == b),
+                _ => None,
+            };
+            extra.insert("via_any".into(), match &via_any { Ok(_) => j!("ok"), Err(e) => j!(format!("err: {}", e.chars().take(120).collect::<String>())) });
+            if let Some(eq) = via_any_equal {
+                extra.insert("via_any_equal".into(), j!(eq));
+            }
             j!({"client": side(client), "server": side(server), "extra": extra})
         }
         _ => return None,
